@@ -28,6 +28,7 @@ func checkC06(c *Ctx) {
 	c.Rule("C06/R10", "what a /key term is matched against: the sub-name lookup scans all parts of the name in order and takes the first part carrying the key (same rule as C05/R4)")
 	c.Rule("C06/R12", "what a .unit term is matched against (same rule as C04/R5): the base unit, and the unit as written only when one was written")
 	c.Rule("C06/R13", "every sub-expression of an AND/OR/NOT node is compiled into the operator's operand list: no path of the operand loop skips the recursive compilation")
+	c.Rule("C06/R15", "the fixed-list membership test judges the value the key names: every extractor handed to the fixed-list filter constructor in makeProjection is a function of the result alone (a package function, a closure over constants, the result of newExtractor) and never reads the projection parser or a projection")
 	c.Rule("C06/R14", "compiled filter functions keep no per-call state: no closure built by NewFilter that takes a result writes memory it captured, directly or through a method of a captured object")
 	c.Rule("C06/R9", "no stale verdicts: any cache inside the filter's compiled closures and the functions they call is keyed by every input of the cached value (a per-filter memo keyed by the base unit alone would hand a later measurement with another written unit the first one's verdict); today there is none, and the detector is shown to work on the unit-tidying cache")
 	p := mustLoad(c, loadOpts{}, "./benchproc", "./benchproc/internal/parse", "./benchfmt", "./benchunit", "./benchmath")
@@ -45,6 +46,7 @@ func checkC06(c *Ctx) {
 	c04UnitTerm(c, p, "C06/R12")
 	c06Operands(c, p)
 	c06Reentrant(c, p)
+	c06FixedListSeesTheKey(c, p)
 }
 
 // c06Operands (C06/R13): the compiled operator gets one compiled operand per sub-expression. In the loop over a node's
@@ -2022,4 +2024,138 @@ func c06ApplyAppend(c *Ctx, p *Prog, fn *ssa.Function, lp *loopInfo, iPhi *ssa.P
 		}
 	}
 	c.Floor(R, "compaction cases", n, 2)
+}
+
+// c06FixedListSeesTheKey (C06/R15): the membership test of a fixed-order projection judges the value the key names, as
+// a filter term on that key would: every extractor handed to the fixed-list filter constructor in makeProjection is a
+// function of the result alone — a package function, a closure over constants, or what newExtractor(key) returns — and
+// never reads the projection parser (whose exclusion lists change what "the full name" means as projections are added).
+func c06FixedListSeesTheKey(c *Ctx, p *Prog) {
+	const R = "C06/R15"
+	mp := p.Method("benchproc", "ProjectionParser", "makeProjection")
+	if mp == nil {
+		c.Undecided(R, "anchor:makeProjection", "", "not found")
+		return
+	}
+	isParser := func(t types.Type) bool {
+		n := recvName(t)
+		return n == "ProjectionParser" || n == "Projection"
+	}
+	// readsParser: f, or a function of the package it statically calls, touches a parser or projection value
+	var readsParser func(f *ssa.Function, depth int) string
+	readsParser = func(f *ssa.Function, depth int) string {
+		if f == nil || f.Blocks == nil || depth > 3 {
+			return ""
+		}
+		for _, fv := range f.FreeVars {
+			t := fv.Type()
+			if pt, ok := t.(*types.Pointer); ok && isParser(pt.Elem()) {
+				return "captures " + fv.Name()
+			}
+			if isParser(t) {
+				return "captures " + fv.Name()
+			}
+		}
+		why := ""
+		eachInstr(f, func(_ *ssa.BasicBlock, in ssa.Instruction) {
+			if why != "" {
+				return
+			}
+			if fa, ok := in.(*ssa.FieldAddr); ok && isParser(fa.X.Type()) {
+				why = "reads the parser"
+				if fld, _ := fieldOfAddr(fa); fld != nil {
+					why = "reads the parser's " + fld.Name()
+				}
+			}
+			if call, ok := in.(*ssa.Call); ok {
+				if sc := call.Call.StaticCallee(); sc != nil && sc.Pkg == f.Pkg && sc != f {
+					if w := readsParser(sc, depth+1); w != "" {
+						why = w
+					}
+				}
+			}
+			if mc, ok := in.(*ssa.MakeClosure); ok {
+				if w := readsParser(mc.Fn.(*ssa.Function), depth+1); w != "" {
+					why = w
+				}
+			}
+		})
+		return why
+	}
+	n := 0
+	for _, fn := range append([]*ssa.Function{mp}, mp.AnonFuncs...) {
+		eachInstr(fn, func(_ *ssa.BasicBlock, in ssa.Instruction) {
+			call, ok := in.(*ssa.Call)
+			if !ok || call.Call.IsInvoke() {
+				return
+			}
+			if _, isBuiltin := call.Call.Value.(*ssa.Builtin); isBuiltin {
+				return
+			}
+			// the constructor of the fixed-list filter: the local closure, or a package function, that is given an
+			// extractor
+			if sc := call.Call.StaticCallee(); sc != nil && sc.Pkg != mp.Pkg {
+				return
+			}
+			var arg ssa.Value
+			for _, a := range call.Call.Args {
+				if recvName(a.Type()) == "extractor" {
+					arg = a
+				}
+			}
+			if arg == nil {
+				return
+			}
+			n++
+			key := fmt.Sprintf("makeProjection:fixed-list-extractor#%d", n)
+			if ct, ok := arg.(*ssa.ChangeType); ok {
+				arg = ct.X
+			}
+			why := ""
+			// a captured local: the one value stored in its cell stands for it
+			if al, ok := loadAddr(arg).(*ssa.Alloc); ok {
+				if sts := storesInto(al); len(sts) == 1 {
+					arg = sts[0].Val
+				}
+			}
+			if ct, ok := arg.(*ssa.ChangeType); ok {
+				arg = ct.X
+			}
+			switch x := arg.(type) {
+			case *ssa.Function:
+				why = readsParser(x, 0)
+			case *ssa.MakeClosure:
+				why = readsParser(x.Fn.(*ssa.Function), 0)
+				for _, b := range x.Bindings {
+					t := b.Type()
+					if pt, ok := t.(*types.Pointer); ok {
+						t = pt.Elem()
+					}
+					if pt, ok := t.(*types.Pointer); ok {
+						t = pt.Elem()
+					}
+					if isParser(t) {
+						why = "captures the parser"
+					}
+				}
+			case *ssa.Extract:
+				if cc, ok := x.Tuple.(*ssa.Call); ok {
+					why = readsParser(cc.Call.StaticCallee(), 0)
+					if cc.Call.StaticCallee() == nil {
+						why = "comes from a dynamic call"
+					}
+				}
+			case *ssa.Call:
+				why = readsParser(x.Call.StaticCallee(), 0)
+				if x.Call.StaticCallee() == nil {
+					why = "comes from a dynamic call"
+				}
+			default:
+				why = "is not a function, a closure or the result of an extractor constructor"
+			}
+			c.Check(why == "", R, key, p.pos(call.Pos()), "the extractor given to the fixed-list test depends on the result alone",
+				"the extractor given to the fixed-list membership test "+why+": what it returns for a result then depends on which other projections were parsed (the full name with their keys stripped), so key@(a b) keeps or removes results that a filter on the same key would treat the other way")
+		})
+	}
+	c.Floor(R, "extractors handed to the fixed-list filter", n, 2)
 }
